@@ -1,0 +1,163 @@
+//! Verification-only (`--cfg jxl_oxide_verif`) replacements for `std::sync::{Mutex, Condvar}` used by the
+//! render-handle protocol.  Without installed hooks (or on threads the hooks do not control) they
+//! behave exactly like the `std` primitives they wrap; with hooks, every lock acquisition, condvar
+//! wait and notification is reported to (and ordered by) an external scheduler.
+
+use std::sync::{Arc, RwLock};
+
+/// Callbacks owned by the verification harness.
+pub trait SyncHooks: Send + Sync {
+    /// Whether the calling thread is controlled by the scheduler.
+    fn controlled(&self) -> bool;
+    /// Blocks (cooperatively) until the calling thread owns `mutex`.
+    fn lock(&self, mutex: usize);
+    fn unlock(&self, mutex: usize);
+    /// Releases `mutex`, waits for a notification of `condvar`, then re-acquires `mutex`.
+    fn wait(&self, condvar: usize, mutex: usize);
+    fn notify_all(&self, condvar: usize);
+    /// A frame's render operation starts (`enter`) or ends on the calling thread.
+    fn render_op(&self, frame_idx: usize, enter: bool);
+}
+
+static HOOKS: RwLock<Option<Arc<dyn SyncHooks>>> = RwLock::new(None);
+
+/// Installs (or removes) the hooks.
+pub fn set_hooks(hooks: Option<Arc<dyn SyncHooks>>) {
+    *HOOKS.write().unwrap() = hooks;
+}
+
+fn hooks() -> Option<Arc<dyn SyncHooks>> {
+    let h = HOOKS.read().unwrap();
+    match &*h {
+        Some(h) if h.controlled() => Some(Arc::clone(h)),
+        _ => None,
+    }
+}
+
+pub(crate) fn render_op(frame_idx: usize, enter: bool) {
+    let h = HOOKS.read().unwrap().clone();
+    if let Some(h) = h {
+        h.render_op(frame_idx, enter);
+    }
+}
+
+#[derive(Debug)]
+pub struct Mutex<T> {
+    inner: std::sync::Mutex<T>,
+}
+
+pub struct MutexGuard<'a, T> {
+    guard: Option<std::sync::MutexGuard<'a, T>>,
+    mutex: &'a Mutex<T>,
+    hooks: Option<Arc<dyn SyncHooks>>,
+}
+
+impl<T: std::fmt::Debug> std::fmt::Debug for MutexGuard<'_, T> {
+    fn fmt(&self, f: &mut std::fmt::Formatter<'_>) -> std::fmt::Result {
+        self.guard.fmt(f)
+    }
+}
+
+impl<T> Mutex<T> {
+    pub fn new(value: T) -> Self {
+        Self { inner: std::sync::Mutex::new(value) }
+    }
+
+    fn id(&self) -> usize {
+        self as *const Self as usize
+    }
+
+    pub fn get_mut(&mut self) -> Result<&mut T, std::convert::Infallible> {
+        Ok(self.inner.get_mut().unwrap_or_else(|e| e.into_inner()))
+    }
+
+    /// Observation without involving the scheduler; only valid while no other thread runs.
+    pub(crate) fn verif_peek(&self) -> std::sync::MutexGuard<'_, T> {
+        self.inner.lock().unwrap_or_else(|e| e.into_inner())
+    }
+
+    pub fn lock(&self) -> Result<MutexGuard<'_, T>, std::convert::Infallible> {
+        let hooks = hooks();
+        if let Some(h) = &hooks {
+            h.lock(self.id());
+        }
+        let guard = self.inner.lock().unwrap_or_else(|e| e.into_inner());
+        Ok(MutexGuard { guard: Some(guard), mutex: self, hooks })
+    }
+}
+
+impl<T> std::ops::Deref for MutexGuard<'_, T> {
+    type Target = T;
+    fn deref(&self) -> &T {
+        self.guard.as_ref().unwrap()
+    }
+}
+
+impl<T> std::ops::DerefMut for MutexGuard<'_, T> {
+    fn deref_mut(&mut self) -> &mut T {
+        self.guard.as_mut().unwrap()
+    }
+}
+
+impl<T> Drop for MutexGuard<'_, T> {
+    fn drop(&mut self) {
+        if let Some(g) = self.guard.take() {
+            drop(g);
+            if let Some(h) = &self.hooks {
+                h.unlock(self.mutex.id());
+            }
+        }
+    }
+}
+
+#[derive(Debug, Default)]
+pub struct Condvar {
+    inner: std::sync::Condvar,
+}
+
+impl Condvar {
+    pub fn new() -> Self {
+        Self::default()
+    }
+
+    fn id(&self) -> usize {
+        self as *const Self as usize
+    }
+
+    pub fn wait<'a, T>(&self, mut guard: MutexGuard<'a, T>) -> Result<MutexGuard<'a, T>, std::convert::Infallible> {
+        let mutex = guard.mutex;
+        match guard.hooks.take() {
+            Some(h) => {
+                // release the real lock, let the scheduler model the wait, take the real lock again
+                drop(guard.guard.take());
+                drop(guard);
+                h.wait(self.id(), mutex.id());
+                let g = mutex.inner.lock().unwrap_or_else(|e| e.into_inner());
+                Ok(MutexGuard { guard: Some(g), mutex, hooks: Some(h) })
+            }
+            None => {
+                let g = guard.guard.take().unwrap();
+                drop(guard);
+                let g = self.inner.wait(g).unwrap_or_else(|e| e.into_inner());
+                Ok(MutexGuard { guard: Some(g), mutex, hooks: None })
+            }
+        }
+    }
+
+    pub fn notify_all(&self) {
+        // A notification must reach both controlled and free-running waiters.
+        let h = HOOKS.read().unwrap().clone();
+        if let Some(h) = h {
+            if h.controlled() {
+                h.notify_all(self.id());
+            }
+        }
+        self.inner.notify_all();
+    }
+
+    pub fn notify_one(&self) {
+        // Not used by the render-handle protocol today; modelled as a broadcast to exactly one waiter is the
+        // scheduler's business, so report it as notify_all of a single waiter is not possible here: keep std.
+        self.inner.notify_one();
+    }
+}
